@@ -27,7 +27,8 @@ def Store.count (s : Store) (pid : Nat) (x : OpState) : Nat := s.cnt.getD (pid *
 
 /-- `PipelineRuntimeStatus.check_transition` -/
 def Store.check (s : Store) (r : Nat) (t : OpState) : Except Err Unit :=
-  if !(validNext (s.stOf r)).contains t then .error .badTransition
+  if !(decide (r < s.st.size)) then .error .badTransition   -- no such operator (KeyError)
+  else if !(validNext (s.stOf r)).contains t then .error .badTransition
   else if t == running && !(s.parentsOf r).all (fun p => s.stOf p == completed) then .error .deps
   else .ok ()
 
